@@ -196,45 +196,55 @@ def run(cfg):
             ex = 'Xxx<=%d' % (-miss[0]) if miss[0] < 0 else 'Xxx>=%d' % miss[0]
             R.violation('R2', c2, tf.loc, 'day-of-month value(s) %s in %s can resolve into the %s but are not rejected (e.g. "%s %s"): the runtime '
                         'then indexes the month table with month %s' % (miss, month, name.replace('-', ' '), month, ex, '0' if month == 'Jan' else '13'))
-    # ---- R4 zone UNTIL: the compiler resolves the weekday expression itself and stores the resolved month and day
+    # ---- R4 zone UNTIL: the compiler resolves the weekday expression itself and stores the resolved month and day.  Decided by
+    # interpreting _create_zones_with_until_day (E-SEQ over the ast, the day expression parsed by the real parser) on one-era zones
+    # whose UNTIL day is a plain day, a last weekday, a weekday on-or-after / on-or-before that stays in the month, one that moves into
+    # the neighbouring month, and one that would move into another year
     R.rule('R4', 'Zone UNTIL expressions are resolved with (untilYear, untilMonth, weekday, day), both results are stored, spills out of the year are refused', floor=3)
     uf = tr.fn('Transformer._create_zones_with_until_day')
     c4 = 'tzdb.transformer.Transformer._create_zones_with_until_day'
-    unpack = None
-    for n in ast.walk(uf.node):
-        if isinstance(n, ast.Assign) and isinstance(n.targets[0], ast.Tuple) and isinstance(n.value, ast.Call) \
-                and getattr(n.value.func, 'id', None) == 'calc_day_of_month' and len(n.targets[0].elts) == 2:
-            unpack = n
-    R.instance('R4', c4 + ':call', uf.loc)
-    if unpack is None:
-        R.violation('R4', c4 + ':call', uf.loc, 'the UNTIL day is no longer resolved with calc_day_of_month() into a (month, day) pair')
-    else:
-        args = [ast.unparse(a) for a in unpack.value.args]
-        mvar, dvar = (e.id if isinstance(e, ast.Name) else None for e in unpack.targets[0].elts)
-        okargs = len(args) == 4 and args[0] == "era['untilYear']" and args[1] == "era['untilMonth']"
-        if not okargs:
-            R.violation('R4', c4 + ':call', tr.loc(unpack), 'calc_day_of_month is called with %s, expected (era[\'untilYear\'], era[\'untilMonth\'], weekday, day)' % args)
-        stored = {}
-        for n in ast.walk(uf.node):
-            if isinstance(n, ast.Assign):
-                tg, vl = n.targets[0], n.value
-                pairs = list(zip(tg.elts, vl.elts)) if isinstance(tg, ast.Tuple) and isinstance(vl, ast.Tuple) and len(tg.elts) == len(vl.elts) else [(tg, vl)]
-                for t, v in pairs:
-                    if isinstance(t, ast.Subscript) and ast.unparse(t.value) == 'era' and isinstance(v, ast.Name):
-                        stored[ast.unparse(t.slice).strip("'\"")] = v.id
-        R.instance('R4', c4 + ':store', tr.loc(unpack), 'stored %r' % stored)
-        if stored.get('untilMonth') != mvar or stored.get('untilDay') != dvar:
-            R.violation('R4', c4 + ':store', tr.loc(unpack), 'the resolved pair (%s, %s) is not stored as era[\'untilMonth\'], era[\'untilDay\'] (stored: %r): an expression that '
-                        'resolves into the neighbouring month keeps the written month with the resolved day' % (mvar, dvar, stored))
-        rejected = set()
-        for n in ast.walk(uf.node):
-            if isinstance(n, ast.If) and isinstance(n.test, ast.Compare) and isinstance(n.test.left, ast.Name) and n.test.left.id == mvar \
-                    and isinstance(n.test.ops[0], ast.Eq) and isinstance(n.test.comparators[0], ast.Constant):
-                if any(isinstance(s, ast.Assign) and ast.unparse(s.targets[0]) == 'valid' and ast.unparse(s.value) == 'False' for s in n.body):
-                    rejected.add(n.test.comparators[0].value)
-        R.instance('R4', c4 + ':year-spill', uf.loc, 'rejected months %s' % sorted(rejected))
-        if not {0, 13} <= rejected:
-            R.violation('R4', c4 + ':year-spill', uf.loc, 'a resolution into month %s (another year) is not refused' % sorted({0, 13} - rejected))
+    cases = [(2005, 3, '9'), (2005, 3, 'lastSun'), (2015, 11, 'Sun>=1'), (2005, 5, 'Sun<=3'), (2004, 2, 'lastSun'), (2005, 2, 'Mon>=22'),
+             (2005, 3, 'Sun>=29'), (2005, 6, 'Sun<=3'), (2005, 11, 'Sat>=30'), (2005, 1, 'Sun<=1'), (2005, 12, 'Sun>=29'), (2011, 1, 'Mon<=2'), (2006, 12, 'Sat>=31')]
+    names = {'Sun': 7, 'Mon': 1, 'Tue': 2, 'Wed': 3, 'Thu': 4, 'Fri': 5, 'Sat': 6}
+    bad = {':call': None, ':store': None, ':year-spill': None}
+    n4 = 0
+    for y, mth, expr in cases:
+        if expr.isdigit():
+            want = datetime.date(y, mth, int(expr))
+        elif expr.startswith('last'):
+            want = resolve(y, mth, names[expr[4:]], 0)
+        else:
+            want = resolve(y, mth, names[expr[:3]], int(expr[5:]) * (1 if expr[3:5] == '>=' else -1))
+        era_ = {'untilYear': y, 'untilMonth': mth, 'untilDayString': expr, 'untilDay': expr, 'rawLine': 'Zone Test/Z 1:00 - TST %d %d %s' % (y, mth, expr)}
+        me = PObj(tr, 'Transformer', {'all_removed_policies': {}, 'all_removed_zones': {}, 'all_notable_policies': {}, 'all_notable_zones': {}, 'scope': 'extended',
+                                      'start_year': 2000, 'until_year': 2050})
+        try:
+            out = pev.call(tr, 'Transformer._create_zones_with_until_day', [{'Test/Z': [era_]}], recv=me)
+        except PRaised as r_:
+            raise AnalysisError('%s: interpretation raised %s on UNTIL %d-%d %s' % (uf.loc, r_.what, y, mth, expr))
+        if not isinstance(out, dict):
+            raise AnalysisError('%s: the function does not return the map of accepted zones' % uf.loc)
+        n4 += 1
+        kept = 'Test/Z' in out
+        if want.year != y:
+            if kept and bad[':year-spill'] is None:
+                bad[':year-spill'] = 'UNTIL %d-%02d %s resolves to %s, in another year, and the zone is kept (stored month %r, day %r)' % (
+                    y, mth, expr, want.isoformat(), era_.get('untilMonth'), era_.get('untilDay'))
+            continue
+        if not kept:
+            if bad[':call'] is None:
+                bad[':call'] = 'UNTIL %d-%02d %s resolves to %s and the zone is removed (%s)' % (y, mth, expr, want.isoformat(), me.attrs['all_removed_zones'].get('Test/Z'))
+            continue
+        e2 = out['Test/Z'][0]
+        got = (e2.get('untilMonth'), e2.get('untilDay'))
+        if got != (want.month, want.day):
+            key = ':store' if (got[1] == want.day or got[0] == want.month) else ':call'
+            if bad[key] is None:
+                bad[key] = 'UNTIL %d-%02d %s is stored as month %r, day %r; the calendar resolves it to %s' % (y, mth, expr, got[0], got[1], want.isoformat())
+    for k_ in (':call', ':store', ':year-spill'):
+        R.instance('R4', c4 + k_, uf.loc, '%d UNTIL day expressions interpreted' % n4)
+        if bad[k_]:
+            R.violation('R4', c4 + k_, uf.loc, bad[k_])
     # ---- R5 the C++ resolver against the calendar: constant propagation of every admitted (month, weekday, day) expression of
     # a set of years through the real body (calcStartDayOfMonth -> forComponents/dayOfWeek/daysInMonth), oracle: datetime
     import datetime
